@@ -72,6 +72,266 @@ theorem rewire3' (st : TState) (s : Nat) (A C N : List Nat) (h : Inv st) (hs : s
     simp [setParents, setChildren]
   rwa [e] at this
 
+/-- general re-wiring step: orphan `B` (units of the edited list), store `newl`, adopt `N`, where `newl` consists of
+the old items outside `B` and of `N`, and every unit of `N` is unlisted or one of the replaced units `B` -/
+theorem rewireG (st : TState) (s : Nat) (B N newl : List Nat) (h : Inv st) (hs : s < st.n)
+    (hB : ∀ u ∈ B, u ∈ st.children s)
+    (hmem : ∀ u, u ∈ newl ↔ (u ∈ st.children s ∧ u ∉ B) ∨ u ∈ N)
+    (hnd : newl.Nodup)
+    (hN : ∀ u ∈ N, st.parent u = none ∨ u ∈ B) (hNn : ∀ u ∈ N, u < st.n) :
+    Inv (setParents (setChildren (setParents st B none) s newl) N (some s)) := by
+  have h1 := h.mem_iff
+  have h3 := h.nodup
+  have h4 := h.bound
+  have h5 := h.fresh
+  constructor
+  · intro s' u'
+    simp only [setParents, setChildren]
+    have := h1 s u'
+    have := h1 s' u'
+    have := hmem u'
+    have := hN u'
+    have := hB u'
+    grind
+  · intro s'
+    simp only [setParents, setChildren]
+    by_cases hs : s' = s
+    · simp only [hs, if_true]; exact hnd
+    · simp only [hs, if_false]; exact h3 s'
+  · intro u p
+    simp only [setParents, setChildren]
+    grind
+  · intro u
+    simp only [setParents, setChildren]
+    have := hN u
+    have := hB u
+    have := h1 s u
+    grind
+
+/-- contiguous replacement with overlap allowed -/
+theorem rewire3o (st : TState) (s : Nat) (A B C N : List Nat) (h : Inv st) (hs : s < st.n)
+    (hl : st.children s = A ++ (B ++ C))
+    (hN : ∀ u ∈ N, st.parent u = none ∨ u ∈ B) (hNd : N.Nodup) (hNn : ∀ u ∈ N, u < st.n) :
+    Inv (setParents (setChildren (setParents st B none) s (A ++ N ++ C)) N (some s)) := by
+  have h2 := h.nodup s
+  rw [hl] at h2
+  simp only [List.nodup_append] at h2
+  have hun : ∀ u ∈ N, st.parent u = none → u ∉ A ++ (B ++ C) := by
+    intro u _ hp hmem
+    rw [← hl, h.mem_iff, hp] at hmem
+    cases hmem
+  apply rewireG st s B N (A ++ N ++ C) h hs
+  · intro u hu; rw [hl]; simp [hu]
+  · intro u; rw [hl]; simp only [List.mem_append]; grind
+  · simp only [List.nodup_append]
+    simp only [List.mem_append] at hun
+    grind
+  · exact hN
+  · exact hNn
+
+/-! ### extended slices: positions, position-wise replacement / deletion -/
+
+theorem extPos_up : ∀ (fuel : Nat) (cur stop k : Int), 0 < k → 0 ≤ cur →
+    (∀ x ∈ extPos fuel cur stop k, cur ≤ (x : Int) ∧ (x : Int) < stop) ∧ (extPos fuel cur stop k).Nodup := by
+  intro fuel
+  induction fuel with
+  | zero => intro cur stop k _ _; simp [extPos]
+  | succ fuel ih =>
+    intro cur stop k hk hc
+    simp only [extPos]
+    split
+    · rename_i hcond
+      have hlt : cur < stop := by omega
+      obtain ⟨i1, i2⟩ := ih (cur + k) stop k hk (by omega)
+      refine ⟨?_, ?_⟩
+      · intro x hx
+        simp only [List.mem_cons] at hx
+        rcases hx with rfl | hx
+        · omega
+        · have := i1 x hx; omega
+      · simp only [List.nodup_cons]
+        refine ⟨?_, i2⟩
+        intro hm; have := i1 _ hm; omega
+    · simp
+
+theorem extPos_down : ∀ (fuel : Nat) (cur stop k : Int), k < 0 → -1 ≤ stop →
+    (∀ x ∈ extPos fuel cur stop k, stop < (x : Int) ∧ (x : Int) ≤ cur) ∧ (extPos fuel cur stop k).Nodup := by
+  intro fuel
+  induction fuel with
+  | zero => intro cur stop k _ _; simp [extPos]
+  | succ fuel ih =>
+    intro cur stop k hk hc
+    simp only [extPos]
+    split
+    · rename_i hcond
+      have hlt : stop < cur := by omega
+      obtain ⟨i1, i2⟩ := ih (cur + k) stop k hk hc
+      refine ⟨?_, ?_⟩
+      · intro x hx
+        simp only [List.mem_cons] at hx
+        rcases hx with rfl | hx
+        · omega
+        · have := i1 x hx; omega
+      · simp only [List.nodup_cons]
+        refine ⟨?_, i2⟩
+        intro hm; have := i1 _ hm; omega
+    · simp
+
+/-- the positions addressed by an extended slice are distinct and inside the list -/
+theorem slicePositions_spec (len : Nat) (i j : Option Int) (k : Int) (hk : k ≠ 0) :
+    (∀ p ∈ slicePositions len i j k, p < len) ∧ (slicePositions len i j k).Nodup := by
+  simp only [slicePositions]
+  by_cases hpos : 0 < k
+  · have hb : 0 ≤ (extBounds len i j k).1 ∧ (extBounds len i j k).2 ≤ (len : Int) := by
+      simp only [extBounds, hpos, if_true]
+      constructor
+      · cases i with
+        | none => simp
+        | some i => simp only; split <;> omega
+      · cases j with
+        | none => simp
+        | some j => simp only; split <;> omega
+    obtain ⟨h1, h2⟩ := extPos_up len (extBounds len i j k).1 (extBounds len i j k).2 k hpos hb.1
+    exact ⟨fun p hp => by have := h1 p hp; omega, h2⟩
+  · have hneg : k < 0 := by omega
+    have hb : (extBounds len i j k).1 ≤ (len : Int) - 1 ∧ -1 ≤ (extBounds len i j k).2 := by
+      simp only [extBounds, hpos, if_false]
+      constructor
+      · cases i with
+        | none => simp
+        | some i => simp only; split <;> omega
+      · cases j with
+        | none => simp
+        | some j => simp only; split <;> omega
+    obtain ⟨h1, h2⟩ := extPos_down len (extBounds len i j k).1 (extBounds len i j k).2 k hneg hb.2
+    exact ⟨fun p hp => by have := h1 p hp; omega, h2⟩
+
+theorem mem_itemsAt (l pos : List Nat) (y : Nat) : y ∈ itemsAt l pos ↔ ∃ p ∈ pos, l[p]? = some y := by
+  simp [itemsAt, List.mem_filterMap]
+
+theorem length_replaceAt (pos us l : List Nat) : (replaceAt pos us l).length = l.length := by
+  simp [replaceAt]
+
+theorem getElem_replaceAt (pos us l : List Nat) (p : Nat) (hp : p < l.length) :
+    (replaceAt pos us l)[p]'(by simpa [replaceAt] using hp) =
+      if p ∈ pos then us.getD (pos.idxOf p) l[p] else l[p] := by
+  simp [replaceAt]
+
+/-- position-wise replacement: membership -/
+theorem mem_replaceAt (pos us l : List Nat) (hl : l.Nodup) (hpn : pos.Nodup) (hpl : ∀ p ∈ pos, p < l.length)
+    (hlen : us.length = pos.length) (x : Nat) :
+    x ∈ replaceAt pos us l ↔ (x ∈ l ∧ x ∉ itemsAt l pos) ∨ x ∈ us := by
+  constructor
+  · intro hx
+    obtain ⟨p, hp, rfl⟩ := List.mem_iff_getElem.1 hx
+    have hp' : p < l.length := by simpa [replaceAt] using hp
+    rw [getElem_replaceAt pos us l p hp']
+    by_cases hm : p ∈ pos
+    · right
+      have := List.idxOf_lt_length_of_mem hm
+      simp only [hm, if_true]
+      rw [List.getD_eq_getElem?_getD, List.getElem?_eq_getElem (by omega)]
+      simp
+    · left
+      simp only [hm, if_false]
+      refine ⟨List.getElem_mem _, ?_⟩
+      rw [mem_itemsAt]
+      rintro ⟨p', hp'm, he⟩
+      have hp'l := hpl p' hp'm
+      rw [List.getElem?_eq_getElem hp'l] at he
+      have : l[p'] = l[p] := by simpa using he
+      have := (List.getElem_inj hl).1 this
+      subst this; exact hm hp'm
+  · rintro (⟨hx, hni⟩ | hx)
+    · obtain ⟨p, hp, rfl⟩ := List.mem_iff_getElem.1 hx
+      have hm : p ∉ pos := by
+        intro hm; apply hni; rw [mem_itemsAt]; exact ⟨p, hm, by simp [hp]⟩
+      apply List.mem_iff_getElem.2
+      refine ⟨p, by simpa [replaceAt] using hp, ?_⟩
+      rw [getElem_replaceAt pos us l p hp]; simp [hm]
+    · obtain ⟨t, ht, rfl⟩ := List.mem_iff_getElem.1 hx
+      have ht' : t < pos.length := by omega
+      have hpm : pos[t] ∈ pos := List.getElem_mem _
+      have hpl' := hpl _ hpm
+      apply List.mem_iff_getElem.2
+      refine ⟨pos[t], by simpa [replaceAt] using hpl', ?_⟩
+      rw [getElem_replaceAt pos us l _ hpl']
+      simp only [hpm, if_true]
+      rw [hpn.idxOf_getElem t ht', List.getD_eq_getElem?_getD, List.getElem?_eq_getElem ht]
+      simp
+
+/-- position-wise replacement keeps the list duplicate-free when every new unit is unlisted or a replaced one -/
+theorem nodup_replaceAt (pos us l : List Nat) (hl : l.Nodup) (hpl : ∀ p ∈ pos, p < l.length)
+    (hlen : us.length = pos.length) (hun : us.Nodup) (hu : ∀ u ∈ us, u ∉ l ∨ u ∈ itemsAt l pos) :
+    (replaceAt pos us l).Nodup := by
+  have key : ∀ p (hp : p < l.length) (hm : p ∈ pos),
+      (replaceAt pos us l)[p]'(by simpa [replaceAt] using hp) = us[pos.idxOf p]'(by
+        have := List.idxOf_lt_length_of_mem hm; omega) := by
+    intro p hp hm
+    have := List.idxOf_lt_length_of_mem hm
+    rw [getElem_replaceAt pos us l p hp]
+    simp only [hm, if_true]
+    rw [List.getD_eq_getElem?_getD, List.getElem?_eq_getElem (by omega)]
+    simp
+  have key2 : ∀ p (hp : p < l.length), p ∉ pos →
+      (replaceAt pos us l)[p]'(by simpa [replaceAt] using hp) = l[p] := by
+    intro p hp hm
+    rw [getElem_replaceAt pos us l p hp]; simp [hm]
+  -- an inserted unit never equals an old item outside the replaced positions
+  have cross : ∀ p (hp : p < l.length) q (hq : q < l.length), p ∈ pos → q ∉ pos →
+      (replaceAt pos us l)[p]'(by simpa [replaceAt] using hp) ≠ (replaceAt pos us l)[q]'(by simpa [replaceAt] using hq) := by
+    intro p hp q hq hpm hqm he
+    rw [key p hp hpm, key2 q hq hqm] at he
+    have hmem : us[pos.idxOf p]'(by have := List.idxOf_lt_length_of_mem hpm; omega) ∈ us := List.getElem_mem _
+    rcases hu _ hmem with h1 | h1
+    · apply h1; rw [he]; exact List.getElem_mem _
+    · rw [mem_itemsAt] at h1
+      obtain ⟨p', hp'm, he'⟩ := h1
+      have hp'l := hpl p' hp'm
+      rw [List.getElem?_eq_getElem hp'l, he] at he'
+      have : l[p'] = l[q] := by simpa using he'
+      have := (List.getElem_inj hl).1 this
+      subst this; exact hqm hp'm
+  rw [List.Nodup, List.pairwise_iff_getElem]
+  intro a b ha hb hab he
+  have ha' : a < l.length := by simpa [replaceAt] using ha
+  have hb' : b < l.length := by simpa [replaceAt] using hb
+  by_cases hma : a ∈ pos <;> by_cases hmb : b ∈ pos
+  · rw [key a ha' hma, key b hb' hmb] at he
+    have := (List.getElem_inj hun).1 he
+    have e1 := List.getElem_idxOf (List.idxOf_lt_length_of_mem hma)
+    have e2 := List.getElem_idxOf (List.idxOf_lt_length_of_mem hmb)
+    simp only [this] at e1
+    rw [e1] at e2; omega
+  · exact cross a ha' b hb' hma hmb he
+  · exact cross b hb' a ha' hmb hma he.symm
+  · rw [key2 a ha' hma, key2 b hb' hmb] at he
+    have := (List.getElem_inj hl).1 he
+    omega
+
+theorem dropAt_sublist (pos l : List Nat) : (dropAt pos l).Sublist l := by
+  have h1 : ((l.zipIdx.filter (fun a => decide (a.2 ∉ pos))).map Prod.fst).Sublist (l.zipIdx.map Prod.fst) :=
+    List.Sublist.map _ List.filter_sublist
+  rwa [List.zipIdx_map_fst] at h1
+
+theorem mem_dropAt (pos l : List Nat) (hl : l.Nodup) (x : Nat) :
+    x ∈ dropAt pos l ↔ (x ∈ l ∧ x ∉ itemsAt l pos) := by
+  simp only [dropAt, List.mem_map, List.mem_filter, List.mem_zipIdx_iff_getElem?, mem_itemsAt]
+  constructor
+  · rintro ⟨⟨y, p⟩, ⟨he, hp⟩, rfl⟩
+    simp only at he hp ⊢
+    have hp : p ∉ pos := by simpa using hp
+    refine ⟨List.mem_of_getElem? he, ?_⟩
+    rintro ⟨p', hp'm, he'⟩
+    obtain ⟨h1, e1⟩ := List.getElem?_eq_some_iff.1 he
+    obtain ⟨h2, e2⟩ := List.getElem?_eq_some_iff.1 he'
+    have := (List.getElem_inj hl).1 (e1.trans e2.symm)
+    subst this; exact hp hp'm
+  · rintro ⟨hx, hni⟩
+    obtain ⟨p, hp, rfl⟩ := List.mem_iff_getElem.1 hx
+    refine ⟨(l[p], p), ⟨by simp [hp], ?_⟩, rfl⟩
+    simp only [decide_eq_true_eq]
+    intro hm; exact hni ⟨p, hm, by simp [hp]⟩
 
 theorem append_inv (st : TState) (s u : Nat) (h : Inv st) (hs : s < st.n) (hf : st.parent u = none) (hu : u < st.n) :
     Inv (append st s u) := by
@@ -89,11 +349,13 @@ theorem extend_inv (st : TState) (s : Nat) (us : List Nat) (h : Inv st) (hs : s 
   have := rewire3' st s (st.children s) [] us h hs (by simp) hf hd hn
   simpa [extend] using this
 
+/-- slice assignment; every inserted unit is unlisted or one of the replaced units -/
 theorem setSlice_inv (st : TState) (s : Nat) (i j : Option Int) (us : List Nat) (h : Inv st) (hs : s < st.n)
-    (hf : ∀ u ∈ us, st.parent u = none) (hd : us.Nodup) (hn : ∀ u ∈ us, u < st.n) : Inv (setSlice st s i j us) := by
+    (hf : ∀ u ∈ us, st.parent u = none ∨ u ∈ bySlice st s i j) (hd : us.Nodup) (hn : ∀ u ∈ us, u < st.n) :
+    Inv (setSlice st s i j us) := by
   have hle := sliceBounds_le (st.children s).length i j
   have key := split3 (st.children s) _ _ hle
-  exact rewire3 st s _ _ _ us h hs key hf hd hn
+  exact rewire3o st s _ _ _ us h hs key hf hd hn
 
 theorem delSlice_inv (st : TState) (s : Nat) (i j : Option Int) (h : Inv st) (hs : s < st.n) :
     Inv (delSlice st s i j) := by
@@ -102,14 +364,17 @@ theorem delSlice_inv (st : TState) (s : Nat) (i j : Option Int) (h : Inv st) (hs
   have := rewire3 st s _ _ _ [] h hs key (by simp) (by simp) (by simp)
   simpa [delSlice, setParents] using this
 
+/-- item assignment; the inserted unit is unlisted or the replaced unit itself (`l[i] = l[i]`) -/
 theorem setItem_inv (st : TState) (s : Nat) (i : Int) (u : Nat) (h : Inv st) (hs : s < st.n)
-    (hf : st.parent u = none) (hu : u < st.n) : Inv (setItem st s i u).1 := by
+    (hf : st.parent u = none ∨ u ∈ Op.replaced st (.setItem s i u)) (hu : u < st.n) : Inv (setItem st s i u).1 := by
   simp only [setItem]
+  simp only [Op.replaced] at hf
   cases hk : normIdx (st.children s).length i with
   | none => simpa using h
   | some k =>
+    simp only [hk] at hf
     have key := split3 (st.children s) k (k + 1) (by omega)
-    have := rewire3 st s _ _ _ [u] h hs key (by simpa using hf) (by simp) (by simpa using hu)
+    have := rewire3o st s _ _ _ [u] h hs key (by simpa using hf) (by simp) (by simpa using hu)
     simpa using this
 
 theorem delItem_inv (st : TState) (s : Nat) (i : Int) (h : Inv st) (hs : s < st.n) :
@@ -121,6 +386,57 @@ theorem delItem_inv (st : TState) (s : Nat) (i : Int) (h : Inv st) (hs : s < st.
     have key := split3 (st.children s) k (k + 1) (by omega)
     have := rewire3 st s _ _ _ [] h hs key (by simp) (by simp) (by simp)
     simpa [setParents] using this
+
+/-- extended-slice assignment `l[i:j:k] = us`; sizes must agree (otherwise the real code has already orphaned the
+addressed items when `list.__setitem__` raises: see `C13_ext_size_counterexample`) -/
+theorem setSliceExt_inv (st : TState) (s : Nat) (i j : Option Int) (k : Int) (us : List Nat) (h : Inv st)
+    (hs : s < st.n) (hf : ∀ u ∈ us, st.parent u = none ∨ u ∈ Op.replaced st (.setSliceExt s i j k us))
+    (hd : us.Nodup) (hn : ∀ u ∈ us, u < st.n)
+    (hsz : k ≠ 0 → k ≠ 1 → us.length = (slicePositions (st.children s).length i j k).length) :
+    Inv (setSliceExt st s i j k us).1 := by
+  simp only [setSliceExt]
+  simp only [Op.replaced] at hf
+  by_cases h0 : k = 0
+  · simpa [h0] using h
+  by_cases h1 : k = 1
+  · simp only [h1, if_true] at hf
+    simpa [h1] using setSlice_inv st s i j us h hs hf hd hn
+  simp only [h0, h1, if_false] at hf ⊢
+  have hsz' := hsz h0 h1
+  simp only [hsz', if_true]
+  obtain ⟨hpl, hpn⟩ := slicePositions_spec (st.children s).length i j k h0
+  apply rewireG st s _ us _ h hs
+  · intro u hu
+    rw [mem_itemsAt] at hu
+    obtain ⟨p, _, he⟩ := hu
+    exact List.mem_of_getElem? he
+  · exact mem_replaceAt _ us _ (h.nodup s) hpn hpl hsz'
+  · apply nodup_replaceAt _ us _ (h.nodup s) hpl hsz' hd
+    intro u hu
+    rcases hf u hu with hp | hm
+    · left; intro hmem; rw [h.mem_iff, hp] at hmem; cases hmem
+    · right; exact hm
+  · exact hf
+  · exact hn
+
+theorem delSliceExt_inv (st : TState) (s : Nat) (i j : Option Int) (k : Int) (h : Inv st) (hs : s < st.n) :
+    Inv (delSliceExt st s i j k).1 := by
+  simp only [delSliceExt]
+  by_cases h0 : k = 0
+  · simpa [h0] using h
+  by_cases h1 : k = 1
+  · simpa [h1] using delSlice_inv st s i j h hs
+  simp only [h0, h1, if_false]
+  have := rewireG st s (itemsAt (st.children s) (slicePositions (st.children s).length i j k)) []
+    (dropAt (slicePositions (st.children s).length i j k) (st.children s)) h hs
+    (by
+      intro u hu
+      rw [mem_itemsAt] at hu
+      obtain ⟨p, _, he⟩ := hu
+      exact List.mem_of_getElem? he)
+    (by intro u; simpa using mem_dropAt _ _ (h.nodup s) u)
+    ((h.nodup s).sublist (dropAt_sublist _ _)) (by simp) (by simp)
+  simpa [setParents] using this
 
 theorem pop_inv (st : TState) (s : Nat) (i : Int) (h : Inv st) (hs : s < st.n) :
     Inv (pop st s i).1 := by
@@ -417,5 +733,111 @@ theorem deepCopy_spec : ∀ (fuel : Nat) (st : TState) (u : Nat), Inv st →
       rw [i3 st.n (by omega)]
       simpa [alloc] using h.fresh st.n (Nat.le_refl _)
 
+/-! ### navigation -/
+
+theorem nodup_bounded_length : ∀ (n : Nat) (l : List Nat), l.Nodup → (∀ x ∈ l, x < n) → l.length ≤ n := by
+  intro n
+  induction n with
+  | zero =>
+    intro l _ hb
+    cases l with
+    | nil => simp
+    | cons a t => have := hb a (by simp); omega
+  | succ n ih =>
+    intro l hnd hb
+    by_cases hm : n ∈ l
+    · have h1 := ih (l.erase n) (hnd.erase n) (by
+        intro x hx
+        have := (hnd.mem_erase_iff).1 hx
+        have := hb x this.2
+        omega)
+      have := List.length_erase_of_mem hm
+      omega
+    · have := ih l hnd (by
+        intro x hx
+        have := hb x hx
+        have : x ≠ n := by intro e; subst e; exact hm hx
+        omega)
+      omega
+
+theorem children_length_le (st : TState) (h : Inv st) (s : Nat) : (st.children s).length ≤ st.n := by
+  apply nodup_bounded_length _ _ (h.nodup s)
+  intro x hx
+  have hp := (h.mem_iff s x).1 hx
+  cases Nat.lt_or_ge x st.n with
+  | inl hlt => exact hlt
+  | inr hge => rw [h.fresh x hge] at hp; cases hp
+
+/-- `prev`/`next` of a listed unit are its list neighbours -/
+theorem nav_split (st : TState) (h : Inv st) (p u : Nat) (pre post : List Nat)
+    (hl : st.children p = pre ++ u :: post) :
+    prev st u = (match pre.getLast? with | some v => .unit v | none => .indexError) ∧
+    next st u = (match post.head? with | some v => .unit v | none => .indexError) := by
+  have hmem : u ∈ st.children p := by rw [hl]; simp
+  have hpar := (h.mem_iff p u).1 hmem
+  have hnd := h.nodup p
+  rw [hl] at hnd
+  have hnotin : u ∉ pre := by
+    intro hm
+    have := List.nodup_append.1 hnd
+    exact this.2.2 u hm u (by simp) rfl
+  have hidx : (pre ++ u :: post).idxOf u = pre.length := by
+    rw [List.idxOf_append]; simp [hnotin]
+  constructor
+  · simp only [prev, hpar, hl, hidx]
+    have : u ∈ pre ++ u :: post := by simp
+    simp only [this, if_true]
+    rcases List.eq_nil_or_concat pre with rfl | ⟨pre', v, rfl⟩
+    · simp
+    · simp [List.getLast?_eq_getElem?]
+  · simp only [next, hpar, hl, hidx]
+    have : u ∈ pre ++ u :: post := by simp
+    simp only [this, if_true]
+    cases post with
+    | nil => simp
+    | cons v post' => simp
+
+theorem prevOfAux_spec (st : TState) (h : Inv st) (q p : Nat) :
+    ∀ (fuel : Nat) (pre : List Nat) (u : Nat) (post : List Nat),
+      st.children p = pre ++ u :: post → pre.length < fuel →
+      prevOfAux fuel st u q =
+        (match (pre.filter (isKind st q)).getLast? with | some v => .unit v | none => .indexError) := by
+  intro fuel
+  induction fuel with
+  | zero => intro pre u post _ hf; omega
+  | succ fuel ih =>
+    intro pre u post hl hf
+    have hp := (nav_split st h p u pre post hl).1
+    simp only [prevOfAux, hp]
+    rcases List.eq_nil_or_concat pre with rfl | ⟨pre', v, rfl⟩
+    · simp
+    · have e : (pre' ++ [v]).getLast? = some v := by simp
+      simp only [List.concat_eq_append] at hl hf ⊢
+      simp only [e]
+      by_cases hk : isKind st q v = true
+      · simp [hk, List.filter_append]
+      · have := ih pre' v (u :: post) (by simpa using hl) (by simp at hf; omega)
+        simp [hk, List.filter_append, this]
+
+theorem nextOfAux_spec (st : TState) (h : Inv st) (q p : Nat) :
+    ∀ (fuel : Nat) (post : List Nat) (u : Nat) (pre : List Nat),
+      st.children p = pre ++ u :: post → post.length < fuel →
+      nextOfAux fuel st u q =
+        (match (post.filter (isKind st q)).head? with | some v => .unit v | none => .indexError) := by
+  intro fuel
+  induction fuel with
+  | zero => intro post u pre _ hf; omega
+  | succ fuel ih =>
+    intro post u pre hl hf
+    have hp := (nav_split st h p u pre post hl).2
+    simp only [nextOfAux, hp]
+    cases post with
+    | nil => simp
+    | cons v post' =>
+      simp only [List.head?_cons]
+      by_cases hk : isKind st q v = true
+      · simp [hk]
+      · have := ih post' v (pre ++ [u]) (by simpa using hl) (by simp at hf; omega)
+        simp [hk, this]
 
 end Tree
